@@ -26,7 +26,9 @@ RULE = ("histories of up to 30 operations on one map: call(new conformation + ne
 ASSUMPTIONS = [
     "'changes to the construction molecules' = geometric changes; renaming them changes the accepted species by "
     "the library's documented equality and is not exercised",
-    "reference of >=3 atoms in generic geometry (no random completion involved)",
+    "reference of >=3 atoms in generic geometry (no random completion involved); arguments are generic conformations, "
+    "plus degenerate ones (an anchor coinciding with a frame neighbour) for which only history-independence and equality "
+    "with a fresh map are required, undefined (NaN) coordinates included",
 ]
 
 REJECT_KINDS = ["other", "samename-atoms", "samename-count", "returned", "none", "str", "ndarray", "residue"]
@@ -34,9 +36,9 @@ REJECT_KINDS = ["other", "samename-atoms", "samename-count", "returned", "none",
 
 @st.composite
 def op_strategy(draw):
-    k = draw(st.sampled_from(["call", "call", "call", "again", "call_ref", "reject", "reject", "mutate"]))
-    if k == "call":
-        return ["call", draw(gen.SEEDS), draw(st.integers(1, 99000))]
+    k = draw(st.sampled_from(["call", "call", "call", "again", "call_ref", "reject", "reject", "mutate", "call_deg"]))
+    if k in ("call", "call_deg"):
+        return [k, draw(gen.SEEDS), draw(st.integers(1, 99000))]
     if k == "again":
         return ["again", draw(st.integers(0, 50))]
     if k == "call_ref":
@@ -110,7 +112,7 @@ def check(case):
             if list(mol.resids) != list(resids):
                 raise PropertyViolation("pure-argument", "step %d: residue numbers of argument %d changed" % (step, i))
         for i, (mol, sp, _) in enumerate(results):
-            if not np.array_equal(positions(mol), sp):
+            if not np.array_equal(positions(mol), sp, equal_nan=True):
                 raise PropertyViolation("pure-results", "step %d: previously returned molecule %d changed by %.3e"
                                         % (step, i, np.abs(positions(mol) - sp).max()))
 
@@ -120,10 +122,12 @@ def check(case):
         out = lib("call", M, mol)
         got = positions(out)
         exp = fresh_expected(coords, resids)
-        if got.shape != exp.shape or not np.abs(got - exp).max() <= 1e-12:
-            raise PropertyViolation("fresh-map", "step %d: result differs from a freshly built map by %.3e"
-                                    % (step, np.abs(got - exp).max() if got.shape == exp.shape else -1))
-        if arg_index in by_arg and not np.array_equal(by_arg[arg_index], got):
+        same_nan = got.shape == exp.shape and np.array_equal(np.isnan(got), np.isnan(exp))
+        if not same_nan or not np.nanmax(np.abs(got - exp), initial=0.0) <= 1e-12:
+            raise PropertyViolation("fresh-map", "step %d: result differs from a freshly built map by %.3e%s"
+                                    % (step, np.nanmax(np.abs(got - exp), initial=0.0) if got.shape == exp.shape else -1,
+                                       "" if same_nan else " (undefined coordinates in one of them only)"))
+        if arg_index in by_arg and not np.array_equal(by_arg[arg_index], got, equal_nan=True):
             raise PropertyViolation("history", "step %d: same argument mapped earlier gave a different result "
                                     "(diff %.3e)" % (step, np.abs(by_arg[arg_index] - got).max()))
         by_arg[arg_index] = got.copy()
@@ -147,8 +151,15 @@ def check(case):
 
     for step, op in enumerate(case["ops"]):
         kind = op[0]
-        if kind == "call":
+        if kind in ("call", "call_deg"):
             coords = _conformation(rpos, rspec["edges"], op[1])
+            if kind == "call_deg":
+                # a degenerate conformation of the right species: an anchor coincides with one of its frame
+                # neighbours (its frame is undefined; whatever the map returns - NaN included - must not depend on
+                # what was mapped before)
+                triples = gen.anchor_triples(len(rpos), rspec["edges"])
+                a_, n1_, n2_ = triples[op[1] % len(triples)]
+                coords[n2_ if op[1] % 2 else n1_] = coords[a_]
             resids = [op[2] + r for r in range(nres)] if op[2] % 3 else [op[2] + 7 * ((r * 5) % 3) for r in range(nres)]
             mol = build_molecule(rspec, coords=coords, resids=resids)
             args.append((mol, coords.copy(), resids))
